@@ -379,6 +379,61 @@ class Dec:
             raise RefError('cannot skip ' + kind)
 
 
+    def tree(self, kind, boolval=None):
+        """schema-free reading of one value of the given wire kind (both protocols are self-describing): nested tuples with
+        the elements of sets and the entries of maps SORTED (the one freedom an encoder has: the iteration order of a hash
+        container); list elements and struct fields stay in wire order; scalars are kept exactly (doubles by their bits)"""
+        c = self.compact
+        if kind == 'bool':
+            if boolval is not None:
+                return ('bool', boolval)
+            b = self.take(1)[0]
+            return ('bool', (b == 1) if c else (b != 0))
+        if kind == 'i8':
+            return ('i8', self.take(1)[0])
+        if kind in ('i16', 'i32', 'i64'):
+            return (kind, unzigzag(self.varint()) if c else self.fixed({'i16': 2, 'i32': 4, 'i64': 8}[kind]))
+        if kind == 'double':
+            return ('double', int.from_bytes(self.take(8), 'little' if (c or self.le) else 'big'))
+        if kind == 'binary':
+            return ('binary', bytes(self.take(self.size())))
+        if kind == 'uuid':
+            return ('uuid', bytes(self.take(16)))
+        if kind == 'struct':
+            fs = []
+
+            def on(fid, k, bv):
+                fs.append((fid, k))             # stays if the value cannot be read
+                fs[-1] = (fid, self.tree(k, bv))
+            try:
+                self.fields(None, on)
+            except RefError:
+                # the input ends exactly where a field header or the stop byte is due (the writer of an argument type of a keep
+                # build, finding F-13a, re-emits retained stop bytes in place of its own): the struct is closed with a marker
+                # that takes part in the comparison
+                if self.i != len(self.b) or (fs and fs[-1] == 'EOF'):
+                    raise
+                fs.append('EOF')
+            return ('struct', tuple(fs))
+        if kind in ('list', 'set'):
+            n, ek = self.coll_header()
+            els = [self.tree(ek) for _ in range(n)]
+            if kind == 'set':
+                els.sort(key=repr)
+            return (kind, ek if n else None, tuple(els))
+        if kind == 'map':
+            n, kk, vk = self.map_header()
+            kvs = sorted(((self.tree(kk), self.tree(vk)) for _ in range(n)), key=repr)
+            return ('map', kk, vk, tuple(kvs))
+        raise RefError('cannot read ' + kind)
+
+
+def wire_tree(data, proto, kind='struct'):
+    """-> (tree, bytes consumed): see Dec.tree"""
+    d = Dec(None, proto, data)
+    return d.tree(kind), d.i
+
+
 def decode(sch, ty, data, proto):
     """-> (value, bytes consumed, notes)"""
     d = Dec(sch, proto, data)
@@ -414,8 +469,17 @@ def selftest():
         w, n, notes = decode(sch, ('ref', 't.U'), e, proto)
         assert w == u and n == len(e) and not notes
     assert varint(300) == b'\xac\x02' and zigzag(-1, 32) == 1 and zigzag(2147483647, 32) == 4294967294 and unzigzag(4294967295) == -2147483648
-    return True
 
+    # wire_tree: set / map order is the only freedom; list order, field order and scalar bytes are not
+    docs2 = [g.Doc('w', [g.Struct('P', [g.F(1, 'x', 'i32', 'required'), g.F(2, 's', g.S('i32')), g.F(3, 'm', g.M('string', 'double')), g.F(4, 'l', g.L('i16'))])])]
+    sch2 = g.lower_docs(docs2)
+    v1 = {1: 7, 2: [1, 2, 3], 3: [(b'a', 1), (b'b', 2)], 4: [1, 2]}
+    v2 = {1: 7, 2: [3, 1, 2], 3: [(b'b', 2), (b'a', 1)], 4: [1, 2]}
+    v3 = dict(v2); v3[4] = [2, 1]
+    for pr in ('binary', 'binary_le', 'compact'):
+        a, b, c = [wire_tree(encode(sch2, ('ref', 'w.P'), v, pr), pr)[0] for v in (v1, v2, v3)]
+        assert a == b and a != c, pr
+    return True
 
 if __name__ == '__main__':
     selftest()
